@@ -198,6 +198,9 @@ def emit_case(c) -> str:
     if k == "rewrite":
         return (f"(CRewrite {pipegen.pipeline_lit(c['p'])} {clist([op_lit(o) for o in c['ops']])} "
                 f"{clist([call_lit(x) for x in c['calls']])})")
+    if k == "aliasmap":
+        return ("(CAliasMap (acs %s %s %s))" % (clist([_m_func(f) for f in c["req"]["funcs"]]), mop_lit(c["rw"]),
+                                                cbool(c["side"])))
     if k == "map":
         rq = c["req"]
         internal = clist([cpair(cstr(n), clist([cnat(x) for x in v])) for n, v in (rq.get("internal") or [])])
@@ -360,7 +363,74 @@ def run_impl(c):
             return _run_map_case(c)
         if k == "alias":
             return _run_alias_case(c)
+        if k == "aliasmap":
+            return _run_aliasmap_case(c)
     raise ValueError(k)
+
+
+def _mstate(pl):
+    _clear_caches(pl)
+    out = []
+    for f in pl.functions:
+        ms = f.mapspec
+        if ms is None:
+            txt = "None"
+        else:
+            ins = sorted(ms.inputs, key=lambda a: a.name)
+            txt = ((", ".join(str(a) for a in ins) if ins else "...") + " -> " + ", ".join(str(a) for a in ms.outputs))
+        out.append([list(_tup(f)), list(f.parameters), txt])
+    return sorted(out, key=lambda e: e[0])
+
+
+def _apply_mop(pl, o):
+    import cloudpickle
+
+    k = o["op"]
+    if k == "copy":
+        return pl.copy()
+    if k == "pickle":
+        return cloudpickle.loads(cloudpickle.dumps(pl))
+    if k == "rename":
+        pl.update_renames(dict(o["r"]))
+    elif k == "scope":
+        pl.update_scope(o["s"], "*", "*")
+    elif k == "addaxis":
+        pl.add_mapspec_axis(*o["params"], axis=o["axis"])
+    elif k == "drop":
+        pl.drop(output_name=o["o"])
+    else:
+        raise ValueError(k)
+    return pl
+
+
+def _aliasmap_setup(c):
+    from .. import mapsym
+
+    P = mapsym.build_pipeline(c["req"], mapsym.CallLog())
+    if c["rw"]["op"] in ("copy", "pickle"):
+        A = P
+        a0 = _mstate(A)
+        B = _apply_mop(P, c["rw"])
+    else:
+        A = P.copy()
+        a0 = _mstate(A)
+        B = _apply_mop(P, c["rw"])
+    return A, B, a0
+
+
+def _run_aliasmap_case(c):
+    try:
+        A, B, a0 = _aliasmap_setup(c)
+    except Exception as e:  # noqa: BLE001
+        return [Err(e), [], [], [], []]
+    a1 = _mstate(A)
+    X, Y = (A, B) if c["side"] else (B, A)
+    y0 = _mstate(Y)
+    try:
+        _apply_mop(X, c["mut"])
+    except Exception as e:  # noqa: BLE001
+        return [Err(e), a0, a1, y0, []]
+    return [["ok"], a0, a1, y0, _mstate(Y)]
 
 
 NEW_PIPELINE_OPS = ("copy", "pickle", "join", "simplify", "split")
@@ -686,6 +756,24 @@ def _conv(rng, kw1):
     return out
 
 
+class _Rho(dict):
+    """orig name -> final name; names the original pipeline does not know go through the same renamings"""
+
+    def __init__(self, names, rens):
+        super().__init__()
+        self.rens = rens
+        for n in names:
+            self[n] = self.through(n)
+
+    def through(self, n):
+        for r in self.rens:
+            n = r.get(n, n)
+        return n
+
+    def get(self, n, default=None):  # noqa: ARG002
+        return self[n] if n in self else self.through(n)
+
+
 def _gen_calls(rng, b0, pl, rho, tier):
     p0 = b0.pipeline
     inv = {}
@@ -770,7 +858,8 @@ def gen_rewrite_case(rng, tier):
             return None
         nops = rng.choice([1, 1, 2, 2, 3])
         ops = []
-        rho = {n: n for n in _names(pl)}
+        names0 = _names(pl)
+        rens = []
         ok = True
         for i in range(nops):
             o = r = None
@@ -796,7 +885,8 @@ def gen_rewrite_case(rng, tier):
             except Exception:  # noqa: BLE001
                 ok = False
                 break
-            rho = {a: r.get(b, b) for a, b in rho.items()}
+            rens.append(r)
+        rho = _Rho(names0, rens)
         calls = _gen_calls(rng, b0, pl, rho, tier) if ok else []
     return {"kind": "rewrite", "p": pd, "ops": ops, "calls": calls}
 
@@ -972,6 +1062,56 @@ def gen_alias_case(rng, tier):
     return c
 
 
+def gen_aliasmap_case(rng, tier):
+    from .. import mapgen, mapsym
+
+    for _ in range(20):
+        rq = mapgen.gen_request(rng, max_funcs=3, max_size=2, allow_internal=False, storages=("dict",))
+        names = []
+        for fd in rq["funcs"]:
+            for n in fd["params"] + fd["outs"]:
+                if n not in names:
+                    names.append(n)
+        mapped = {n for fd in rq["funcs"] if fd.get("spec") for n, _ in fd["spec"]["i"]}
+        roots = [k for k, v in rq["inputs"] if isinstance(v, str) or k in mapped]
+        kind = rng.choice(["copy", "pickle", "rename", "scope", "addaxis", "addaxis"])
+        if kind == "rename":
+            ks = rng.sample(names, rng.randint(1, min(2, len(names))))
+            rw = {"op": "rename", "r": [[k, f"n{j}_{k}"] for j, k in enumerate(ks)]}
+        elif kind == "scope":
+            rw = {"op": "scope", "s": rng.choice(SCOPES)}
+        elif kind == "addaxis":
+            if not roots:
+                continue
+            rw = {"op": "addaxis", "params": [rng.choice(roots)], "axis": "kk"}
+        else:
+            rw = {"op": kind}
+        c = {"kind": "aliasmap", "req": rq, "rw": rw, "side": rng.random() < 0.5}
+        try:
+            A, B, _ = _aliasmap_setup(c)
+        except Exception:  # noqa: BLE001
+            continue
+        X = A if c["side"] else B
+        xnames = _names(X)
+        xroots = list(X.topological_generations.root_args)
+        for _try in range(6):
+            mk = rng.choice(["addaxis", "addaxis", "rename", "drop"])
+            if mk == "addaxis" and xroots:
+                m = {"op": "addaxis", "params": [rng.choice(xroots)], "axis": "mm"}
+            elif mk == "rename":
+                n = rng.choice(xnames)
+                m = {"op": "rename", "r": [[n, "m_" + n.replace(".", "_")]]}
+            else:
+                m = {"op": "drop", "o": rng.choice(sorted(X.all_output_names))}
+            try:
+                _apply_mop(X.copy(), m)
+            except Exception:  # noqa: BLE001
+                continue
+            c["mut"] = m
+            return c
+    return None
+
+
 def generate(rng, tier, mult):
     n = (220 if tier == "quick" else 5000) * mult
     nm = (70 if tier == "quick" else 1500) * mult
@@ -984,6 +1124,13 @@ def generate(rng, tier, mult):
         warnings.simplefilter("ignore")
         for _ in range(nm):
             cases.append(gen_map_case(rng, tier))
+        nam = (40 if tier == "quick" else 600) * mult
+        k = 0
+        while k < nam:
+            c = gen_aliasmap_case(rng, tier)
+            if c is not None:
+                cases.append(c)
+                k += 1
     na = (120 if tier == "quick" else 3000) * mult
     k = 0
     while k < na:
@@ -996,6 +1143,8 @@ def generate(rng, tier, mult):
 
 # ------------------------------------------------------------------ evidence helpers
 def nontrivial_key(c):
+    if c["kind"] == "aliasmap":
+        return ("aliasmap", [f.get("spec") for f in c["req"]["funcs"]], c["rw"], c["side"], c["mut"])
     if c["kind"] == "alias":
         return ("alias", c["p"], c["rw"], c["side"], c["mut"])
     if c["kind"] == "map":
@@ -1011,6 +1160,9 @@ def nontrivial_key(c):
 
 def distribution(c):
     d = {"kind": c["kind"]}
+    if c["kind"] == "aliasmap":
+        d["aliasmap_rw"] = c["rw"]["op"]
+        d["aliasmap_mut"] = c["mut"]["op"] + ("@orig" if c["side"] else "@new")
     if c["kind"] == "alias":
         d["alias_rw"] = c["rw"]["op"]
         d["alias_mut"] = c["mut"]["m"] + ("@orig" if c["side"] else "@new")
